@@ -135,6 +135,8 @@ def prepare_globals(record):
     lib.set_alias(record.get('alias_objects', False))
     lib.set_from_shape(record.get('grid_from_shape', False))
     lib.set_door_assign(record.get('door_status_assigned', False))
+    lib.set_held_assign(record.get('held_item_assigned', False))
+    lib.set_numpy_coords(record.get('numpy_coordinates', False))
     if not record.get('keep_caches', False):
         clear_caches()
 
